@@ -63,4 +63,73 @@ theorem C05_local_define_restores (cfg : ECfg) (al : List (Str × Val)) (f : Nat
         | some y => simp [ho] at hold
         | none => simpa [ho] using hold
 
+/-! ## the loop variable of `tal:repeat` -/
+
+/-- `m` runs `k` last, from a state with the root dictionary `r0` it started with -/
+structure EndsWith (k m : RM Unit) (r0 : List (Str × Val) × Bool) : Prop where
+  run : ∀ s s', rootOf s = r0 → m s = .ok () s' → ∃ s1, rootOf s1 = r0 ∧ k s1 = .ok () s'
+
+theorem endsWith_self (k : RM Unit) (r0) : EndsWith k k r0 := ⟨fun s s' hr h => ⟨s, hr, h⟩⟩
+
+theorem endsWith_bind {α} (k : RM Unit) (r0) (m : RM α) (F : α → RM Unit) (hm : RootKept m)
+    (hF : ∀ a, EndsWith k (F a) r0) : EndsWith k (m >>= F) r0 := by
+  constructor
+  intro s s' hr h
+  simp only [bind] at h
+  cases hms : m s with
+  | raised ex s1 => simp [hms] at h
+  | unsupported w => simp [hms] at h
+  | ok a s1 =>
+    simp only [hms] at h
+    exact (hF a).run s1 s' ((hm.at_ s a s1 hms).trans hr) h
+
+theorem mGet_bind {β} (G : RState → RM β) (s : RState) : (mGet >>= G) s = G s s := rfl
+
+/-- restoring a name after a computation that keeps the root dictionary gives back exactly the old binding -/
+theorem restore_gives_back (nm : Str) (s s1 s' : RState) (hr : rootOf s1 = rootOf s)
+    (h : restore [(nm, s.env.get nm)] s1 = .ok () s') : s'.env.get nm = s.env.get nm := by
+  cases hold : s.env.get nm with
+  | some x =>
+    simp only [hold, restore, forM_single, setVar, modEnv, mModify, bind, pure, Res.ok.injEq, true_and] at h
+    subst h
+    exact get_after_set _ _ _
+  | none =>
+    simp only [hold, restore, forM_single, delVar, modEnv, mModify, bind, pure, Res.ok.injEq, true_and] at h
+    subst h
+    have hroot : s1.env.root = s.env.root := by
+      have := hr; simp only [rootOf, Prod.mk.injEq] at this; exact this.1
+    simp only [Env.get, lookup_filter_self, hroot]
+    simp only [Env.get] at hold
+    cases ho : lookupAssoc s.env.own nm with
+    | some y => simp [ho] at hold
+    | none => simpa [ho] using hold
+
+/-- **C05 (the loop variable ends with its element)**: when an element with a (local) `tal:repeat` of `name` is
+finished — after any number of iterations, whatever the body did — `name` is bound to exactly what it was bound to
+before the loop, or is undefined again. -/
+theorem C05_repeat_restores (cfg : ECfg) (al : List (Str × Val)) (f id : Nat) (nm : Tok) (e : EN) (ws : Str) (node : Node)
+    (s s' : RState) (h : eval cfg al (f + 1) (.repeat_ id [nm] e true ws node) s = .ok () s') :
+    s'.env.get nm.str = s.env.get nm.str := by
+  simp only [eval, if_true, List.map_cons, List.map_nil] at h
+  rw [mGet_bind] at h
+  generalize hold : s.env.get nm.str = old at h
+  generalize s.env.get (lit "repeat") = rd at h
+  have hE : ∀ m : RM Unit, m s = .ok () s' → EndsWith (restore [(nm.str, old)]) m (rootOf s) →
+      ∃ s1, rootOf s1 = rootOf s ∧ restore [(nm.str, old)] s1 = .ok () s' := fun m hm hE => hE.run s s' rfl hm
+  obtain ⟨s1, hr, hk⟩ := hE _ h (by
+    repeat' (first
+      | exact endsWith_self _ _
+      | (apply endsWith_bind)
+      | exact rk_enVal _ _ _
+      | exact rk_pure _
+      | exact rk_unsupported _
+      | exact rk_modEnv _ (fun _ => ⟨rfl, rfl⟩)
+      | exact rk_forM _ _ (fun a => rk_setVar _ _)
+      | exact (rk_all cfg f).2.2.2 al _ _ _ _ _ _ _
+      | intro _
+      | split))
+  rw [← hold] at hk
+  rw [← hold]
+  exact restore_gives_back nm.str s s1 s' hr hk
+
 end ChamVerif
